@@ -8,6 +8,10 @@ ids = [p["id"] for p in props]
 
 # id -> (engine, technique, level text, level note, design ref)
 CHECKS = {
+ "C04": ("E5", "bounded-exhaustive enumeration of firmware images (all SNP metadata section lists up to a length bound over a menu incl. malformed ones; size/content/reset-address/vCPU/product sweeps) with the real sev.LaunchDigest compared against an independent reference of the SNP_LAUNCH_UPDATE digest chain",
+         "All 216k section lists of length <=3 (thorough: plus 1M lists of length 4 over a reduced menu) over kinds 1-5, four addresses (one misaligned, one whose end wraps 32 bits) and three lengths (one empty), and sweeps over image size, contents, five reset-block addresses, vCPU counts -1..240 and both products, are measured by the real code and by a reference written from the ABI text (own GUID-table walk, metadata parser, PAGE_INFO layout, VMSA (offset,width,value) table); malformed images must be rejected, accepted ones must equal the reference, two calls agree and the image is unchanged.",
+         "Trusted: crypto/sha512; the boot-processor reset state is restated from the APM layout with GCE's values (an error common to that table and the repository's template text would not be seen); images are 4-12 KiB.",
+         "DESIGN.md#c04"),
  "C15": ("E5", "bounded-exhaustive enumeration of the full flag product on the real endorse pipeline with recording doubles and captured stdout, each configuration compared with a real run of the same configuration",
          "All 384 combinations of dry-run / measurement-only / both, technology selection, snapshot directory, candidate name, overwrite, VMSA count, machine shapes and pre-existing files are executed through endorse.VirtualFirmware with recording CertificateAuthority, Signer, VersionControl and ChangeOps doubles; no workspace, write or commit may occur, measurement-only may not touch keys or CA, printed measurements (and the digest handed to the signer in dry-run) must equal those of a real run; 18 CLI runs check the flag wiring over localnonvcs on disk.",
          "Trusted: dry-run's signed digest is compared with the real run's only when the SNP table has at most one entry (Go protobuf marshals maps in random order); images are small synthetic firmware.",
